@@ -1,3 +1,5 @@
+import PomerolModel.Model.Chi4Prepare
+import PomerolModel.Model.GFPart
 import PomerolModel.Model.Averages
 import Driver.NumericRun
 
@@ -406,6 +408,30 @@ def runNumeric (lines : List String) : IO Unit := do
         for y in List.range cols do
           cur2 := mset cur2 (kIndex s l x) (kIndex s r y) (mget impl x y)
       a := { a with implOps := (key, cur2) :: a.implOps.filter (·.1 != key) }
+    | ["o", "gfparts", i, j, n] =>
+      -- model of the block-pair selection (Model/GFPart.prepare) on the brute-force block maps vs. the implementation
+      let s := a.s
+      let bmOf (op : Mat) : List (Nat × Nat) := (List.range s.blocks.size).filterMap fun r =>
+        match bruteTargets s op r with | l :: _ => some (l, r) | [] => none
+      let c := (bmOf (opFock s "c" (nat! i) 0)).mergeSort fun x y => x.1 ≤ y.1          -- left view of C
+      let cx := bmOf (opFock s "cdag" (nat! j) 0)                                         -- right view of CX (built by r ascending)
+      let keep (b : Nat) : Bool := if s.retained.isEmpty then true else s.retained.getD b true
+      a := a.bump "prepare_model_comparisons"
+      match Pomerol.Model.GFPart.prepare keep c cx with
+      | .ok ps => if ps.length != nat! n then
+          IO.println s!"MODELDIFF[C01] G_{i}{j}: implementation selects {n} block pairs, model of GreensFunction::prepare {ps.length} ({ps})"
+      | .error _ => IO.println s!"MODELDIFF[C01] G_{i}{j}: model of GreensFunction::prepare reads out of range"
+    | ["o", "chivanish", i, j, k, l, _, n] =>
+      let s := a.s
+      let bmOf (op : Mat) : List (Nat × Nat) := (List.range s.blocks.size).filterMap fun r =>
+        match bruteTargets s op r with | lft :: _ => some (lft, r) | [] => none
+      let c1 := bmOf (opFock s "c" (nat! i) 0); let c2 := bmOf (opFock s "c" (nat! j) 0)
+      let cx3 := bmOf (opFock s "cdag" (nat! k) 0); let cx4 := bmOf (opFock s "cdag" (nat! l) 0)
+      let keep (b : Nat) : Bool := if s.retained.isEmpty then true else s.retained.getD b true
+      a := a.bump "prepare_model_comparisons"
+      let st := Pomerol.Model.Chi4Prepare.prepare keep c1 c2 cx3 cx4
+      if st.length != nat! n then
+        IO.println s!"MODELDIFF[C02] chi_{i}{j}{k}{l}: implementation creates {n} world stripes, model of TwoParticleGF::prepare {st.length}"
     | "o" :: "gfvanish" :: _ =>
       -- all operator parts have been read: CAR of the assembled operators (once)
       if !(a.counts.any (·.1 == "car_checked")) && a.implOps.length > 0 then
